@@ -5,14 +5,14 @@
     with Flocq's own IEEE-754 decoder and real value).
     SOURCE TIE (tools/rs2coq): the functions named below are ALSO regenerated from the Rust source on every
     run by a syn-based translator (coq/gen/Src.v) and proved EQUAL to the hand-written model functions the
-    theorems above are about ([rs_*_eq], proofs/SrcEquiv*.v) - for all inputs and both build modes; a change to
+    theorems above are about ([rs_*_eq], proofs/SrcEq*.v) - for all inputs and both build modes; a change to
     that Rust code changes the generated file and breaks these equalities.
     Here: is_denormal, exponent, mantissa (num.rs default methods); extended_to_float (extended_float.rs); b, bh (slow.rs). *)
 
 From Coq Require Import ZArith List Bool Reals.
 From Coq Require Import Floats.SpecFloat.
 From Flocq Require Import Core.Core IEEE754.BinarySingleNaN IEEE754.Bits.
-From ML Require Import base.RustSem model.Fmt model.Num model.FloatOps model.Slow gen.Consts proofs.NumFacts proofs.NumFactsFlocq gen.Src proofs.SrcEquiv proofs.SrcEquiv2.
+From ML Require Import base.RustSem model.Fmt model.Num model.FloatOps model.Slow gen.Consts proofs.NumFacts proofs.NumFactsFlocq gen.Src proofs.SrcEqBase proofs.SrcEqNum proofs.SrcEqSlowB.
 
 Open Scope Z_scope.
 
